@@ -106,6 +106,9 @@ type zzvWrapped struct {
 
 func (w *zzvWrapped) MergeUpdate() (ResourceUpdater, error) {
 	r, err := w.ResourceUpdater.MergeUpdate()
+	if r != nil && r != w.ResourceUpdater {
+		zzverif.Reach("merge-pass-produced-another-updater")
+	}
 	w.t.checkValid("merge")
 	return r, err
 }
@@ -114,7 +117,9 @@ func (w *zzvWrapped) update() error {
 	w.t.checkValid("update")
 	return err
 }
-func (w *zzvWrapped) Clone() ResourceUpdater { return &zzvWrapped{ResourceUpdater: w.ResourceUpdater.Clone(), t: w.t} }
+func (w *zzvWrapped) Clone() ResourceUpdater {
+	return &zzvWrapped{ResourceUpdater: w.ResourceUpdater.Clone(), t: w.t}
+}
 
 func (t *zzvTree) run() {
 	sysutil.Conf.CgroupRootDir = filepath.Join(zzverif.TempRoot(), "cgroup")
